@@ -6,6 +6,7 @@ import (
 	"fmt"
 	"go/types"
 	"strings"
+	"sync"
 )
 
 // ---------------------------------------------------------------------------
@@ -779,6 +780,65 @@ func (x *Exec) readAllFrom(fr *frame, r Value) (*Term, Value) {
 	panic(abortf("read from %T (no stream contract)", r))
 }
 
+// cdataFields applies the end-of-line normalisation of XML parsers to the string
+// fields the encoder writes as CDATA (the only tag-level rule modelled, DESIGN §9.13).
+func (x *Exec) cdataFields(p *Pointer, t types.Type, depth int) {
+	if depth > 30 || !typeMentionsCDATA(t, map[string]bool{}) {
+		return
+	}
+	switch u := t.Underlying().(type) {
+	case *types.Struct:
+		for i := 0; i < u.NumFields(); i++ {
+			fp := p.sub(i)
+			if strings.Contains(u.Tag(i), ",cdata") {
+				if v, ok := x.load(fp).(*Term); ok && v.Sort == SStr {
+					x.store(fp, UF("crnorm", v))
+				}
+				continue
+			}
+			x.cdataFields(fp, u.Field(i).Type(), depth+1)
+		}
+	case *types.Pointer:
+		if q, ok := x.force(x.load(p)).(*Pointer); ok && !q.IsNil() {
+			x.cdataFields(q, u.Elem(), depth+1)
+		}
+	case *types.Slice:
+		if s, ok := x.force(x.load(p)).(*SliceV); ok && s.Arr != nil && !isByteSlice(t) {
+			for i := 0; i < s.Len; i++ {
+				x.cdataFields(&Pointer{Cell: s.Arr, Path: []int{s.Off + i}}, u.Elem(), depth+1)
+			}
+		}
+	}
+}
+
+var cdataMemo sync.Map
+
+func typeMentionsCDATA(t types.Type, seen map[string]bool) bool {
+	k := t.String()
+	if v, ok := cdataMemo.Load(k); ok {
+		return v.(bool)
+	}
+	if seen[k] {
+		return false
+	}
+	seen[k] = true
+	r := false
+	switch u := t.Underlying().(type) {
+	case *types.Struct:
+		for i := 0; i < u.NumFields() && !r; i++ {
+			r = strings.Contains(u.Tag(i), ",cdata") || typeMentionsCDATA(u.Field(i).Type(), seen)
+		}
+	case *types.Pointer:
+		r = typeMentionsCDATA(u.Elem(), seen)
+	case *types.Slice:
+		r = typeMentionsCDATA(u.Elem(), seen)
+	}
+	if len(seen) == 1 {
+		cdataMemo.Store(k, r)
+	}
+	return r
+}
+
 // leadingDocument: data begins with one complete serialised document (optionally
 // after the XML header) and goes on with other bytes.
 func (x *Exec) leadingDocument(data *Term) (doc *Term, docLen *Term, ok bool) {
@@ -857,6 +917,9 @@ func (x *Exec) xmlDecode(data *Term, target Value) Value {
 				obj = x.load(op)
 			}
 			x.store(p, obj)
+			// fields written as CDATA sections (tag ",cdata") come back with CR / CRLF turned into
+			// LF: inside CDATA a CR cannot be written as a character reference
+			x.cdataFields(p, et, 0)
 			// custom UnmarshalXML / UnmarshalText methods of module types
 			if r := x.xmlDecodeHooks(nil, p, et, false); r != nil {
 				return r
